@@ -6,7 +6,7 @@
     Instances: the printed tokens of a stream selector (label names may be keywords that are not function names: D29) and of a
     pipeline over the stage fragment of PipelineP are such lists; composing with the parser theorems gives
     text -> matchers (selector) and text -> ELog selector stages (whole log queries through parse_tokens). *)
-From LogQLV Require Import Base.Bytes Base.TimeFmt Base.FloatX Model.Tables Model.Syntax Model.Parser Model.Lexer Proofs.ParserP Proofs.PredP Proofs.PipelineP Proofs.LogRangeP Proofs.QueryP Proofs.LexerP Proofs.LexerTightP.
+From LogQLV Require Import Base.Bytes Base.TimeFmt Base.FloatX Model.Tables Model.Syntax Model.Parser Model.Lexer Proofs.ParserP Proofs.PredP Proofs.PipelineP Proofs.LogRangeP Proofs.QueryP Proofs.UnwrapP Proofs.LexerP Proofs.LexerTightP.
 From Coq Require Import Lia.
 
 (** facts about the keyword table of the tree under verification (decided by computation on Model/Tables.v, which is
@@ -485,5 +485,65 @@ Section LexParse.
       cbn [map]. apply closed_cons; [reflexivity|]. rewrite map_app. apply closed_app; [exact A2|]. apply closed_one. reflexivity. }
     destruct (lex_tokens_lemma _ l El Hs HL (closed_funs_ok _ HF)) as [toks [H1 H2]]. exists toks. split; [exact H1|]. rewrite H2.
     destruct (text_matchers_wf sel Hm) as [W1 W2]. apply vec_agg_parse_lemma; assumption.
+  Qed.
+  (** * unwrapped range aggregations: from text to tree *)
+  Lemma chain_mid_simple sts : forall r, chain_mid anch re_names sts r -> Forall (simple_stage anch re_names) sts.
+  Proof. induction sts as [|s t IH]; intros r H; [constructor|]. destruct H as [H1 [_ H3]]. constructor; [exact H1|apply (IH r); exact H3]. Qed.
+
+  Lemma unwrap_toks cv l : wf_unwrap cv -> text_name l ->
+    Forall lexable (print_unwrap cv l) /\ closed (map ltok_of (print_unwrap cv l)).
+  Proof.
+    intros Hw Hl. unfold print_unwrap. destruct (conv_tok cv) as [k|] eqn:E.
+    - assert (Hk : (k = TBytesConv /\ cv = ["b"; "y"; "t"; "e"; "s"]%byte) \/ (k = TDurationConv /\ cv = ["d"; "u"; "r"; "a"; "t"; "i"; "o"; "n"]%byte) \/
+                   (k = TDurationSecondsConv /\ cv = ["d"; "u"; "r"; "a"; "t"; "i"; "o"; "n"; "_"; "s"; "e"; "c"; "o"; "n"; "d"; "s"]%byte)).
+      { unfold conv_tok in E.
+        destruct (bytes_eqb cv ["b"; "y"; "t"; "e"; "s"]%byte) eqn:E1; [apply bytes_eqb_eq in E1; inversion E; auto|].
+        destruct (bytes_eqb cv ["d"; "u"; "r"; "a"; "t"; "i"; "o"; "n"]%byte) eqn:E2; [apply bytes_eqb_eq in E2; inversion E; auto|].
+        destruct (bytes_eqb cv ["d"; "u"; "r"; "a"; "t"; "i"; "o"; "n"; "_"; "s"; "e"; "c"; "o"; "n"; "d"; "s"]%byte) eqn:E3; [apply bytes_eqb_eq in E3; inversion E; auto|discriminate]. }
+      split.
+      + fl; [punct_lex| |punct_lex|apply lexable_name; exact Hl|punct_lex].
+        destruct Hk as [[-> ->] | [[-> ->] | [-> ->]]]; punct_lex.
+      + cbn [map]. apply closed_cons; [reflexivity|].
+        assert (Hf : exists w, ltok_of (plain k cv) = LFun k w) by (destruct Hk as [[-> ->] | [[-> ->] | [-> ->]]]; eexists; reflexivity).
+        destruct Hf as [w ->]. change (ltok_of (punct TOpenParen)) with open_paren. apply closed_fun; [reflexivity|reflexivity|].
+        apply closed_cons; [reflexivity|]. apply closed_one. reflexivity.
+    - split; [fl; [punct_lex|apply lexable_name; exact Hl]|]. cbn [map]. apply closed_cons; [reflexivity|]. apply closed_one. reflexivity.
+  Qed.
+
+  Lemma opt_grouping_toks g : match g with Some g0 => text_names (g_labels g0) | None => True end ->
+    Forall lexable (print_opt_grouping g) /\ closed (map ltok_of (print_opt_grouping g)).
+  Proof.
+    destruct g as [g0|]; cbn [print_opt_grouping]; intro H; [|split; [constructor|apply closed_nil]].
+    destruct (grouping_toks g0 H) as [G1 [G2 _]]. split; assumption.
+  Qed.
+
+  Theorem unwrap_agg_text_lemma (o : rangeop) (sel : list matcher) (sts : list stage) (cv lb rtxt : bytes) (rns : Z) (off : option (bytes * Z))
+      (g : option grouping) (l : list (ltok * bytes)) :
+    map fst l = map ltok_of (print_unwrap_agg anch re_names kw_cls o sel sts cv lb rtxt rns off g) ->
+    seps_ok l ->
+    range_validate o None g true = true ->
+    Forall text_matcher sel -> Forall text_stage sts ->
+    chain_mid anch re_names sts (unwrap_tail cv lb rtxt rns off (punct TCloseParen :: print_opt_grouping g)) ->
+    wf_unwrap cv -> text_name lb -> text_dur rtxt rns -> text_offset off ->
+    match g with Some g0 => text_names (g_labels g0) | None => True end ->
+    exists toks, lex (layout l) = LexOk toks /\
+      parse_tokens (map tok_of toks) = Parsed (ERange o (unwrap_lr sel sts cv lb rns off) None g).
+  Proof.
+    intros El Hs Hv Hm Ht Hc Hw Hlb Hr Ho Hg.
+    destruct (selector_toks sel Hm) as [A1 A2]. destruct (stages_toks sts (chain_mid_simple _ _ Hc) Ht) as [B1 B2].
+    destruct (unwrap_toks cv lb Hw Hlb) as [U1 U2]. destruct (range_toks rtxt rns off Hr Ho) as [R1 R2].
+    destruct (opt_grouping_toks g Hg) as [G1 G2]. destruct (rangeop_lex o) as [O1 [w O2]].
+    assert (HL : Forall lexable (print_unwrap_agg anch re_names kw_cls o sel sts cv lb rtxt rns off g)).
+    { unfold print_unwrap_agg, print_unwrap_range. constructor; [exact O1|]. constructor; [punct_lex|].
+      apply Forall_app. split; [|constructor; [punct_lex|exact G1]].
+      apply Forall_app. split; [exact A1|]. apply Forall_app. split; [exact B1|]. constructor; [punct_lex|]. apply Forall_app. split; assumption. }
+    assert (HF : closed (map ltok_of (print_unwrap_agg anch re_names kw_cls o sel sts cv lb rtxt rns off g))).
+    { unfold print_unwrap_agg, print_unwrap_range. cbn [map]. rewrite O2. change (ltok_of (punct TOpenParen)) with open_paren.
+      apply closed_fun; [reflexivity|reflexivity|]. rewrite map_app. apply closed_app.
+      - rewrite !map_app. apply closed_app; [exact A2|]. apply closed_app; [exact B2|]. cbn [map]. apply closed_cons; [reflexivity|].
+        rewrite map_app. apply closed_app; assumption.
+      - cbn [map]. apply closed_cons; [reflexivity|exact G2]. }
+    destruct (lex_tokens_lemma _ l El Hs HL (closed_funs_ok _ HF)) as [toks [H1 H2]]. exists toks. split; [exact H1|]. rewrite H2.
+    destruct (text_matchers_wf sel Hm) as [W1 W2]. apply unwrap_agg_parse_lemma; assumption.
   Qed.
 End LexParse.
